@@ -203,9 +203,12 @@ def run_harness(exe, cfg, timeout=900):
         elif w[0] == "PAGESIZE":
             r["page"] = int(w[1])
         elif w[0] == "CTX" and len(w) >= 6:
-            r["ctxs"][int(w[1])] = {"tid": int(w[2]), "iter": int(w[3]), "tag": w[4], "viol": int(w[5].split("=")[1]), "events": []}
+            c0 = r["ctxs"].setdefault(int(w[1]), {"tid": int(w[2]), "iter": int(w[3]), "tag": w[4], "viol": 0, "events": []})
+            c0["viol"] = int(w[5].split("=")[1])      # a context is dumped early at a violation and again at the end
         elif w[0] == "CA" and len(w) == 7 and int(w[1]) in r["ctxs"]:
             r["ctxs"][int(w[1])]["events"].append((w[2], w[3], int(w[4]), int(w[5]), int(w[6])))
+            if w[2] == "P":
+                r["ctxs"][int(w[1])]["publish_sizes"] = r["ctxs"][int(w[1])].get("publish_sizes", []) + [int(w[4])]
     return r
 
 
@@ -235,12 +238,12 @@ else:
         reps_n = 2 if ck.tier == "quick" else 40
         for k in range(reps_n):
             it = 1 if ck.tier == "quick" else 2
-            cfgs.append(("main", [2, 10 * it, 1 + ck.rng.below(10**6), k % 2, "0x7f", 0]))
-            cfgs.append(("main", [4, 6 * it, 1 + ck.rng.below(10**6), (k + 1) % 2, "0x7f", 0]))
-            cfgs.append(("main", [8, 4 * it, 1 + ck.rng.below(10**6), k % 2, "0x7f", 0]))
-            cfgs.append(("mir2c", [4, 4, 1 + ck.rng.below(10**6), 0, "0x7f", 2]))
+            cfgs.append(("main", [2, 10 * it, 1 + ck.rng.below(10**6), k % 2, "0xff", 0]))
+            cfgs.append(("main", [4, 6 * it, 1 + ck.rng.below(10**6), (k + 1) % 2, "0xff", 0]))
+            cfgs.append(("main", [8, 4 * it, 1 + ck.rng.below(10**6), k % 2, "0xff", 0]))
+            cfgs.append(("mir2c", [4, 4, 1 + ck.rng.below(10**6), 0, "0xff", 2]))
             if k % 4 == 1:
-                cfgs.append(("mir2c", [2, 4, 1 + ck.rng.below(10**6), 1, "0x7f", 1]))
+                cfgs.append(("mir2c", [2, 4, 1 + ck.rng.below(10**6), 1, "0xff", 1]))
     t = time.time()
     with ThreadPoolExecutor(max_workers=3) as ex:
         runs = list(ex.map(lambda c: dict(run_harness(exe, c[1]), role=c[0]), cfgs))
@@ -381,6 +384,8 @@ pg = {"contexts": 0, "requests": 0, "patch_calls": 0, "boundary_patches": 0, "mo
 
 def ev_text(e, page):
     k, sub, a, b, bad = e
+    if k == "P":
+        return f"_MIR_publish_code(len={a})" + ("   [exact page multiple]" if a % page == 0 else "")
     if k == "m":
         return f"mem_map -> pages {a}..{a + b - 1}"
     if k == "u":
@@ -397,7 +402,7 @@ try:
         if not r["ctxs"]:
             continue
         ids = list(r["ctxs"])
-        inp = "".join(f"pages {r['page']} {i}\n" + "".join(f"{e[0]} {e[2]} {e[3]}\n" for e in r["ctxs"][i]["events"]) + "endpages\n"
+        inp = "".join(f"pages {r['page']} {i}\n" + "".join(f"{e[0]} {e[2]} {e[3]}\n" for e in r["ctxs"][i]["events"] if e[0] != "P") + "endpages\n"
                       for i in ids)
         rc, out, err = ck.drv("mirdrv_c18", [], inp)
         rep_by_id = {}
@@ -413,6 +418,7 @@ try:
             pg["requests"] += int(m["reqs"])
             pg["patch_calls"] += int(m["patches"])
             pg["boundary_patches"] += int(m["boundary"])
+            pg["page_multiple_publishes"] = pg.get("page_multiple_publishes", 0) + sum(1 for z in c.get("publish_sizes", []) if z % r["page"] == 0)
             mbad = int(m["bad"]) + int(m["patchbad"])
             pg["model_bad"] += 1 if mbad else 0
             pg["harness_bad"] += 1 if c["viol"] else 0
@@ -422,7 +428,8 @@ try:
             if mbad and not page_violation_done:
                 page_violation_done = True
                 fb = [int(x) for x in (m.get("firstbad") or m.get("firstpatchbad")).split(":")]
-                idx = fb[0]
+                pos = [j for j, e in enumerate(c["events"]) if e[0] != "P"]   # the driver does not see the P announcements
+                idx = pos[fb[0]] if fb[0] < len(pos) else len(c["events"]) - 1
                 phases = [e[4] for e in sorted(r["events"]) if e[2] == c["tid"] and e[3] == c["iter"]] or PHASES_DEFAULT
                 seq = [ev_text(e, r["page"]) for e in c["events"][max(0, idx - 9):idx + 1]]
                 ck.violation({"stage": "tie", "theorem_or_correspondence": "code-page ownership (MirVerif.C18.patch_request_confined / change_window_tight)",
